@@ -660,9 +660,33 @@ def m_replace(it, S, t, callee, args):
 
 @model("core::mem::take")
 def m_take(it, S, t, callee, args):
+    # returns the old value and leaves Default::default(): the empty container / None / 0 for the std types used here
     loc = it.target(args[0])
     old = S.read(loc)
+    ty = Place(t["dest"]).ty
+    s_ = ty.get("s", "")
     S.havoc(loc, it.site())
+    if ty.get("k") == "adt" and ty.get("adt") == "core::option::Option":
+        S.write(loc, ("agg", "core::option::Option", 0, ()))
+    elif s_.split("<")[0] in ("std::vec::Vec", "alloc::vec::Vec", "bytes::BytesMut", "bytes::bytes_mut::BytesMut", "bytes::Bytes", "bytes::bytes::Bytes", "std::string::String", "alloc::string::String"):
+        R = ("call", it.site("default"), "default")
+        set_ty(R, tykey(ty))
+        S.write(loc, ("upd", R, (((("len",),), U(0)),)))
+    elif ty.get("k") in ("uint", "int"):
+        S.write(loc, K(tykey(ty), 0))
+    elif ty.get("k") == "bool":
+        S.write(loc, K("bool", 0))
+    return old
+
+
+@model("core::option::Option::take")
+def m_option_take(it, S, t, callee, args):
+    # Option::take = mem::replace(self, None)
+    loc = it.target(args[0])
+    old = S.read(loc)
+    if sv_type(old) is None and isinstance(old, tuple) and old[0] == "ld":
+        set_ty(old, tykey(Place(t["dest"]).ty))
+    S.write(loc, ("agg", "core::option::Option", 0, ()))
     return old
 
 
@@ -934,6 +958,47 @@ def _from_residual(it, S, t, callee, args):
 
 
 PREFIX_MODELS.append((lambda name, c: name.endswith("::from_residual"), _from_residual))
+
+
+_FROM_BYTES = re.compile(r"^core::num::<impl (u16|u32|u64|usize|i16|i32|i64)>::from_(be|le)_bytes$")
+
+
+def _from_bytes(it, S, t, callee, args):
+    # the integer whose bytes are the array's elements in the given order; leading (be) / trailing (le) zero constants narrow it
+    from .interp import assemble_bytes
+    m = _FROM_BYTES.match(norm_name(callee.get("pretty")))
+    ty, order = m.group(1), m.group(2)
+    v = args[0]
+    while isinstance(v, tuple) and v[0] == "upd":
+        v = v[1]
+    if not (isinstance(v, tuple) and v[0] == "agg" and v[1] == "array"):
+        return None
+    elems = list(v[3])
+    if order == "le":
+        elems.reverse()
+    while elems and const_val(elems[0]) == 0:
+        elems.pop(0)
+    if all(const_val(e) is not None for e in elems):
+        val = 0
+        for e in elems:
+            val = (val << 8) | (const_val(e) & 0xFF)
+        return K(ty, val)
+    n = len(elems)
+    expr = None
+    for i, e in enumerate(elems):
+        term = ("bin", "Shl", ty, ("cast", ty, e), K("u32", 8 * (n - 1 - i)))
+        expr = term if expr is None else ("bin", "BitOr", ty, expr, term)
+    asm = assemble_bytes(expr) if expr is not None else None
+    if asm is None:
+        return None
+    # the array lists the bytes most significant first after the reversal above, whatever the call's byte order
+    R = ("model", "uint-from-bytes", asm[0] if order == "be" else {"be": "le", "le": "be"}[asm[0]], asm[1], ("ref", asm[2]), it.site())
+    set_ty(R, ty)
+    S.set_dom(R, Dom(0, 2 ** (8 * asm[1]) - 1))
+    return R
+
+
+PREFIX_MODELS.append((lambda name, c: _FROM_BYTES.match(name) is not None, _from_bytes))
 
 
 _TO_BYTES = re.compile(r"^core::num::<impl (u8|u16|u32|u64|u128|usize|i8|i16|i32|i64)>::to_(be|le|ne)_bytes$")
